@@ -62,7 +62,7 @@ static void part_zero(const std::vector<unsigned>& ns) {
 }
 
 static void part_proto(const std::vector<unsigned>& ns, unsigned depth, unsigned steps) {
-    for (unsigned n : ns) for (int model = 0; model < 2; model++) for (int noise = 0; noise < 4; noise++) for (int var = 0; var < 2; var++) {   // noise: 0 none, 1 phase and amplitude, 2 amplitude only, 3 phase only
+    for (unsigned n : ns) for (int model = 0; model < 2; model++) for (int noise = 0; noise < 5; noise++) for (int var = 0; var < 2; var++) {   // noise: 0 none, 1 phase and amplitude, 2 amplitude only, 3 phase only, 4 amplitude noise of order one (factors of either sign)
         Par q{n, 3 + (unsigned)var, model, var};
         std::string kase0 = mcx::Desc()("part", "proto")("model", MN[model])("n", n)("noise", noise)("var", var)("depth", depth)("steps", steps).str();
         if (!R.mine(kase0)) continue;
@@ -85,9 +85,10 @@ static void part_proto(const std::vector<unsigned>& ns, unsigned depth, unsigned
                 auto in = mkps_shift(n, 12, 0, 0, {1.f}, d.data()), out = mkps_shift(n, 12, 0, 0, {1.f});
                 auto in2 = mkps_shift(n, 12, 0, 0, {1.f}, d.data()), out2 = mkps_shift(n, 12, 0, 0, {1.f});
                 Phys p = phys(in, var);
-                auto dyn = mkdyn(in, out, q, p, (noise == 1 || noise == 3) ? 0.004f : 0.f, (noise == 1 || noise == 2) ? 0.02f : 0.f, (noise == 2 && var == 1) ? 0.f : modampl, modinc, steps);
+                auto dyn = mkdyn(in, out, q, p, (noise == 1 || noise == 3) ? 0.004f : 0.f, noise == 4 ? 0.15f : (noise == 1 || noise == 2) ? 0.02f : 0.f, (noise == 2 && var == 1) ? 0.f : modampl, modinc, steps);
                 auto sta = mkstat(in2, out2, q, p);
                 std::vector<std::array<float, 2>> queue; { auto cp = dyn->_next_modulation; while (!cp.empty()) { queue.push_back(cp.front()); cp.pop(); } }
+                if (noise == 4) for (auto& e : queue) if (e[1] < 0) R.addnum("sum_queue_entries_with_negative_amplitude", 1);
                 if (queue.size() != steps) { R.violate(key + "/queue-length", kase0, std::to_string(queue.size()) + " entries for " + std::to_string(steps) + " steps"); continue; }
                 unsigned applied = 0, flushed = 0; bool ok = true;
                 for (char c : h2) {
@@ -138,7 +139,7 @@ static void part_proto(const std::vector<unsigned>& ns, unsigned depth, unsigned
         }
         R.addnum("states", (double)states); R.addnum("transitions", (double)transitions);
     }
-    R.bound_done("proto: both models x n x noise{off, phase+amplitude, amplitude only, phase only} x 2 modulations (one without any phase modulation) x every {apply, flush} sequence up to depth " + std::to_string(depth) + " (queue length " + std::to_string(steps) + ")");
+    R.bound_done("proto: both models x n x noise{off, phase+amplitude, amplitude only, phase only, amplitude noise of order one} x 2 modulations (one without any phase modulation) x every {apply, flush} sequence up to depth " + std::to_string(depth) + " (queue length " + std::to_string(steps) + ")");
 }
 
 // long runs: the recorded waveform keeps the configured frequency (bound: single-precision rounding of the sine's argument)
